@@ -70,10 +70,12 @@ CHECKS = {
                  'controller changes the limits (raise, lower, to/from unlimited, same value) at plan instants and while a '
                  'consumer is blocked; every ordered pair of limit values is enumerated in the corpus. The grant history is '
                  'judged exactly for every window (sliding-window byte bound incl. changes), for unlimited-not-throttled and '
-                 'for the bounded-wait clause.'),
+                 'for the bounded-wait clause. Transfer level (checks/c20_pair.py): two real clients move a file under an upload '
+                 'or download limit changed at run time; the per-iteration deltas of the public bytes_transfered counters go '
+                 'through the same window oracle and the transfer must still complete.'),
         'design_ref': 'DESIGN.md section 3 (C20), appendix B.8',
-        'note': ('bytes moved are the grants of take_tokens (what send_file/receive_file then move); the transfer-level variant '
-                 '(two real clients) is exercised by C04 with limits but judged there only for completion; slack term as stated in DESIGN.md'),
+        'note': ('limiter level: bytes moved are the grants of take_tokens; transfer level: what the application consumed or handed '
+                 'to the socket (not arrival times at the far end); slack term as stated in DESIGN.md'),
         'technique': 'deterministic simulation on the virtual clock (real limiter/network objects, scripted consumers) + exact window oracle',
     },
     'C18': {
